@@ -9,7 +9,8 @@ Families
   expr/cond   R f(T1 a, T2 b, T3 c) { return a ? b : c; }
   expr/deep   depth 2-3 trees over a, b, c and small literals, sampled by seed
   stmt/*      statement templates (control flow, compound assignment, ++/--, arrays, structs, pointers, globals,
-              calls, externals), instantiated over operand types
+              calls, externals; declarations with initialisers in loop bodies and in for-init clauses at nesting
+              depth 2, loops running >= 2 times), instantiated over operand types
 """
 import random
 import itertools
@@ -509,6 +510,82 @@ def t_nested_loops():
     return entry("stmt/nested-loops", prog([func("f", "int", [("n", "int")], body)]), ())
 
 
+def t_nested_for_init(tj, braces):
+    # the inner loop's for-init declaration must be (re-)executed on every iteration of the outer loop, with a value
+    # that changes between iterations; the outer loop runs up to 3 times
+    inner = ["for", D(tj, "j", V("i")), B("lt", V("j"), L(3)), ID("postinc", V("j")),
+             E(A(V("s"), B("add", B("mul", V("i"), L(4)), V("j")), "add"))]
+    body = [D("int", "s", L(0)),
+            ["for", D("int", "i", L(0)), B("lt", V("i"), B("band", V("n"), L(3))), ID("postinc", V("i")),
+             BLK(inner) if braces else inner],
+            RET(V("s"))]
+    return entry("stmt/nested-for-init" + ("-braces" if braces else ""), prog([func("f", "int", [("n", "int")], body)]), (tj,))
+
+
+def t_for_init_under(kind, tj):
+    # a for statement (with a declaration in its init clause) as the unbraced body of if / while / do / else
+    ex = [("ext1", "int", ["int"])]
+    loop = ["for", D(tj, "j", B("band", CALL("ext1", V("k")), L(1))), B("lt", V("j"), L(2)), ID("postinc", V("j")),
+            E(A(V("s"), B("add", V("j"), L(1)), "add"))]
+    if kind == "if":
+        st = IF(B("gt", V("n"), L(0)), loop)
+        st[2] = loop                               # no braces
+    elif kind == "else":
+        st = ["if", B("gt", V("n"), L(0)), E(A(V("s"), L(7))), loop]
+    elif kind == "while":
+        st = ["while", B("lt", V("k"), B("band", V("n"), L(3))), None]
+        loop = ["for", D(tj, "j", ID("postinc", V("k"))), B("lt", V("j"), L(3)), ID("postinc", V("j")),
+                E(A(V("s"), B("add", V("j"), L(1)), "add"))]
+        st[2] = loop
+    else:
+        loop = ["for", D(tj, "j", ID("postinc", V("k"))), B("lt", V("j"), L(3)), ID("postinc", V("j")),
+                E(A(V("s"), B("add", V("j"), L(1)), "add"))]
+        st = ["do", loop, B("lt", V("k"), B("band", V("n"), L(3)))]
+    body = [D("int", "s", L(0)), D("int", "k", L(0)), st, RET(B("add", B("mul", V("s"), L(8)), V("k")))]
+    return entry("stmt/for-init-under-" + kind, prog([func("f", "int", [("n", "int")], body)],
+                                                     externs=ex if kind in ("if", "else") else ()), (tj,))
+
+
+def t_decl_in_loop_body(kind, tx):
+    # a declaration with initialiser inside a loop body is initialised on every iteration
+    inner = BLK(D(tx, "x", B("add", B("mul", V("i"), L(3)), V("a"))), E(A(V("s"), V("x"), "add")), E(ID("postinc", V("x"))),
+                E(A(V("s"), V("x"), "bxor")))
+    if kind == "for":
+        loop = ["for", D("int", "i", L(0)), B("lt", V("i"), B("band", V("n"), L(3))), ID("postinc", V("i")), inner]
+        pre = []
+    elif kind == "while":
+        inner[1].append(E(ID("postinc", V("i"))))
+        loop = ["while", B("lt", V("i"), B("band", V("n"), L(3))), inner]
+        pre = [D("int", "i", L(0))]
+    else:
+        inner[1].append(E(ID("postinc", V("i"))))
+        loop = ["do", inner, B("lt", V("i"), B("band", V("n"), L(3)))]
+        pre = [D("int", "i", L(0))]
+    body = [D("llong", "s", L(0))] + pre + [loop, RET(V("s"))]
+    return entry("stmt/decl-in-loop-" + kind, prog([func("f", "llong", [("n", "int"), ("a", "short")], body)]), (tx,))
+
+
+def t_decl_depth2(tx):
+    # declarations with initialisers at nesting depth 2 (inner loop body and inner for-init), braces everywhere
+    inner = ["for", D(tx, "j", B("add", V("i"), L(1))), B("lt", V("j"), L(3)), ID("postinc", V("j")),
+             BLK(D(tx, "y", B("add", B("mul", V("i"), L(5)), V("j"))), E(A(V("s"), V("y"), "add")))]
+    body = [D("int", "s", L(0)),
+            ["for", D("int", "i", L(0)), B("lt", V("i"), B("band", V("n"), L(3))), ID("postinc", V("i")),
+             BLK(D(tx, "x", B("mul", V("i"), L(2))), inner, E(A(V("s"), V("x"), "add")))],
+            RET(V("s"))]
+    return entry("stmt/decl-depth2", prog([func("f", "int", [("n", "int")], body)]), (tx,))
+
+
+def t_array_decl_in_loop(te):
+    # an array with initialiser list inside a loop body: all elements re-initialised on every iteration
+    body = [D("llong", "s", L(0)),
+            ["for", D("int", "i", L(0)), B("lt", V("i"), B("band", V("n"), L(3))), ID("postinc", V("i")),
+             BLK(DL(["arr", te, 3], "t", [V("i"), B("add", V("i"), L(1))]), E(A(V("s"), IX(V("t"), B("band", V("i"), L(1))), "add")),
+                 E(A(IX(V("t"), L(2)), L(9), "add")), E(A(V("s"), IX(V("t"), L(2)), "add")))],
+            RET(V("s"))]
+    return entry("stmt/array-decl-in-loop", prog([func("f", "llong", [("n", "int")], body)]), (te,))
+
+
 def t_big_literal(v, suffix):
     body = [RET(B("lt", U("neg", L(v, suffix)), L(0)))]
     return entry("stmt/literal", prog([func("f", "int", [], body)]), (f"{v}{suffix}",))
@@ -575,6 +652,18 @@ def stmt_family(tier, rnd, march="x86_64"):
         out.append(t_switch_default_first(tc))
         out.append(t_switch_in_loop(tc))
     out.append(t_nested_loops())
+    for tj in pick(["int", "uchar", "long", "short"], 1):
+        out.append(t_nested_for_init(tj, False))
+        out.append(t_nested_for_init(tj, True))
+        out.append(t_decl_depth2(tj))
+    for kind in ("if", "else", "while", "do"):
+        for tj in pick(["int", "short", "ulong"], 1):
+            out.append(t_for_init_under(kind, tj))
+    for kind in ("for", "while", "do"):
+        for tx in pick(["int", "uchar", "long", "ushort"], 1):
+            out.append(t_decl_in_loop_body(kind, tx))
+    for te in pick(["int", "schar", "ulong"], 1):
+        out.append(t_array_decl_in_loop(te))
     for ti in pick(["uchar", "ushort", "uint", "schar"], 2):
         out.append(t_narrow_counter(ti))
     # compound assignment
